@@ -1,9 +1,9 @@
 #!/usr/bin/env python3
-"""tools/import_seed.py <ID>  — copy /tmp/seed_<ID>/out/<k>/ into seeded/<ID>_<k>/ with a meta.json skeleton"""
+"""tools/import_seed.py <ID> [k ...] — copy /tmp/seed_<ID>/out/<k>/ into seeded/<ID>_<k>/ with a meta.json skeleton (default k = 1 2)"""
 import json, shutil, sys
 from pathlib import Path
 pid = sys.argv[1]
-for k in ("1", "2"):
+for k in (sys.argv[2:] or ["1", "2"]):
     src = Path(f"/tmp/seed_{pid}/out/{k}")
     if not (src / "patch.diff").exists() or (src / "patch.diff").stat().st_size == 0:
         print("missing", src); continue
